@@ -166,6 +166,40 @@ let () =
             print_endline (hex_of_bytes (print_alias (wctx_of std perm "0" "0" "15") (bytes_of_hex n) (bytes_of_hex tg)))
         | ["H"; std; perm; n] ->
             print_endline (hex_of_bytes (print_hidden (wctx_of std perm "0" "0" "15") (bytes_of_hex n)))
+        | ["F"; std; big; arm; prot; off; force; enc] ->
+            (* fragment header as the writer model prints it *)
+            let pr = (match prot with "0" -> PNone | "1" -> PFormat | "2" -> PData | _ -> PAll) in
+            let en = (match enc with
+              | "none" -> Some ENone | "bzip2" -> Some EBzip2 | "gzip" -> Some EGzip | "lzma" -> Some ELzma | "slim" -> Some ESlim
+              | "text" -> Some EText | "sie" -> Some ESie | "zzip" -> Some EZzip | "zzslim" -> Some EZzslim | "flac" -> Some EFlac | _ -> None) in
+            let a = { fa_big = b01 big; fa_arm = b01 arm; fa_prot = pr; fa_off = z_of_dec off; fa_enc = en } in
+            print_endline (hex_of_bytes (List.concat (print_header (wctx_of std "0" "0" "0" "17") a (b01 force))))
+        | ["R"; ioff; iprot; lines] ->
+            (* fragment header as the reader model understands it; lines = comma separated hex, each with its newline *)
+            let ls = List.map bytes_of_hex (List.filter (fun x -> x <> "") (String.split_on_char ',' lines)) in
+            let ip = (match iprot with "0" -> PNone | "1" -> PFormat | "2" -> PData | _ -> PAll) in
+            (match parse_header (initial_state (z_of_dec ioff) ip) ls with
+             | None -> print_endline "NONE"
+             | Some st ->
+                 let a = st.ps_a in
+                 let pn = (match a.fa_prot with PNone -> 0 | PFormat -> 1 | PData -> 2 | PAll -> 3) in
+                 let en = (match a.fa_enc with
+                   | None -> "-" | Some ENone -> "none" | Some EBzip2 -> "bzip2" | Some EGzip -> "gzip" | Some ELzma -> "lzma" | Some ESlim -> "slim"
+                   | Some EText -> "text" | Some ESie -> "sie" | Some EZzip -> "zzip" | Some EZzslim -> "zzslim" | Some EFlac -> "flac") in
+                 Printf.printf "%s %s %s %s %d %s %s\n" (dec_of_z st.ps_r.r_std) (s01 st.ps_r.r_ped) (s01 a.fa_big) (s01 a.fa_arm) pn (dec_of_z a.fa_off) en)
+        | ["I"; blank; file; ns; px; sx] ->
+            let o h = if h = "-" then None else Some (bytes_of_hex h) in
+            print_endline (hex_of_bytes (items_text false (include_items (b01 blank) (bytes_of_hex file) (o ns) (o px) (o sx))))
+        | ["J"; std; lh] ->
+            let r = { r_std = z_of_dec std; r_ped = true } in
+            (match tokenise true (bytes_of_hex lh) with
+             | Inr toks ->
+                 (match parse_include r toks with
+                  | Some (((f, ns), px), sx) ->
+                      let o = function None -> "-" | Some b -> hex_of_bytes b in
+                      print_endline (hex_of_bytes f ^ " " ^ o ns ^ " " ^ o px ^ " " ^ o sx)
+                  | None -> print_endline "NONE")
+             | Inl _ -> print_endline "NONE")
         | ["K"; v6; lh] ->
             (match tokenise (b01 v6) (bytes_of_hex lh) with
              | Inr toks -> print_endline ("OK " ^ String.concat "," (List.map hex_of_bytes toks))
